@@ -206,6 +206,11 @@ fn real_main(args: &[String]) -> i32 {
             let _ = std::io::stdin().read_to_string(&mut s);
             framework::shrink_cmd(&args[2], &s)
         }
+        "try" | "final" => {
+            let mut s = String::new();
+            let _ = std::io::stdin().read_to_string(&mut s);
+            framework::try_cmd(&args[2], &s, args[1] == "final")
+        }
         "selftest-determinism" => {
             let runs = args.get(2).and_then(|s| s.parse().ok()).unwrap_or(2000);
             framework::selftest_determinism(&args[3.min(args.len())..].to_vec(), runs)
